@@ -387,6 +387,17 @@ def judge(spec, rec):
     clause, exp = got
     classify(spec, rec, clause, exp)
     g, arg, ans_msg = build(spec)
+    hist = len(spec['student']) % 3
+    if hist and spec.get('via', 'answers') in ('expect-arg', 'answers', 'answers-dict'):
+        # the same grader object has graded before: another expected string (one that cleaning alters) handed in through
+        # the expect argument - which a grader with configured answers ignores - and, for hist == 2, this very pair
+        call(g, ' Prior  ONE\t', 'prior one')
+        if hist == 2:
+            call(g, arg, spec['student'])
+        rec.calls(hist)
+        rec.cls('history/same-grader-graded-before')
+        if spec.get('via') == 'expect-arg':
+            rec.cls('history/expect-argument-twice')
     out = observe(g, arg, spec['student'])
     rec.calls()
     wrong_msg = spec['opts'].get('wrong_msg', '')
